@@ -499,6 +499,18 @@ func runC04(seed int64, n int, tier string, outDir string) (*Report, error) {
 	if err := rep.AddCases(cwT); err != nil {
 		return nil, err
 	}
+	// the gob decoders on malformed property maps, against Model/GobTotal.run_gob (harness/c04gob.go)
+	ng := 60
+	if tier == "thorough" {
+		ng = 1500
+	}
+	cwG, err := c04GobCases(NewGen(seed, "C04gob"), ng, tier, outDir, rep)
+	if err != nil {
+		return nil, err
+	}
+	if err := rep.AddCases(cwG); err != nil {
+		return nil, err
+	}
 	return rep, nil
 }
 
